@@ -3,6 +3,7 @@ import Morlock.Driver.Chess
 import Morlock.Driver.Game
 import Morlock.Driver.Fen
 import Morlock.Driver.Search
+import Morlock.Driver.Engine
 open Morlock.Driver in
 def dispatchPure (toks : List String) : String :=
   match toks with
@@ -27,6 +28,7 @@ def dispatch (st : DriverState) (line : String) : DriverState × String :=
     | none => (st, "bad-ztable")
   | "game" :: args => (st, gameOp st args)
   | "search" :: args => (st, searchOp st args)
+  | "engine" :: args => (st, engineOp st args)
   | other => (st, dispatchPure other)
 
 partial def loop (h : IO.FS.Stream) (out : IO.FS.Stream) (st : DriverState) : IO Unit := do
